@@ -176,6 +176,25 @@ def toG : Nat → Sx → Option GTy
       let v ← toG f v
       pure (.tgen k v)
     | .list [.atom "fn", r] => (toG f r).map GTy.fn
+    | .list [.atom "fn1", p, r] => do
+      let p ← toG f p
+      let r ← toG f r
+      pure (.fn1 p r)
+    | .list [.atom "t", a, b] => do
+      let a ← toG f a
+      let b ← toG f b
+      pure (.tup a b)
+    | .list [.atom "t", a, b, c] => do
+      let a ← toG f a
+      let b ← toG f b
+      let c ← toG f c
+      pure (.tup3 a b c)
+    | .list [.atom "o", .list [.atom k1, a], .list [.atom k2, b]] => do
+      let k1 ← Drv.unhex k1
+      let k2 ← Drv.unhex k2
+      let a ← toG f a
+      let b ← toG f b
+      pure (.obj2 k1 a k2 b)
     | .list [.atom "u", .list [.atom "v", .atom i], .list [.atom "p", .atom "nil"]] =>
       i.toNat?.map fun i => .opt (.v i)
     | other => (toTy f other).map GTy.base
@@ -184,6 +203,18 @@ def readGList (h : String) : Option (List GTy) := do
   let cs ← Drv.unhex h
   match ← readSx (String.ofList cs) with
   | .list (.atom "l" :: xs) => xs.mapM (toG (cs.length + 2))
+  | _ => none
+
+/-- argument expressions: a type, `(m G*)` = a call returning these values, `(va G)` = `...` of that type -/
+def toArg (f : Nat) : Sx → Option Arg
+  | .list (.atom "m" :: xs) => (xs.mapM (toG f)).map Arg.multi
+  | .list [.atom "va", x] => (toG f x).map Arg.vararg
+  | x => (toG f x).map Arg.one
+
+def readArgList (h : String) : Option (List Arg) := do
+  let cs ← Drv.unhex h
+  match ← readSx (String.ofList cs) with
+  | .list (.atom "l" :: xs) => xs.mapM (toArg (cs.length + 2))
   | _ => none
 
 def readG (h : String) : Option GTy := do
@@ -199,6 +230,10 @@ def showG : GTy → String
   | .opt (.base (.union ms)) => s!"(u{showTyL ms} (p nil))"
   | .opt t => s!"(u {showG t} (p nil))"
   | .fn r => s!"(fn {showG r})"
+  | .tup a b => s!"(t {showG a} {showG b})"
+  | .tup3 a b c => s!"(t {showG a} {showG b} {showG c})"
+  | .obj2 k1 a k2 b => s!"(o ({Drv.hex k1} {showG a}) ({Drv.hex k2} {showG b}))"
+  | .fn1 p r => s!"(fn1 {showG p} {showG r})"
 
 def showRes : Res → String
   | .ok => "ok"
@@ -248,9 +283,9 @@ def handle (op : String) (args : List String) : Option String :=
       | none => "ok none")
   | "inst", [ps, as, r] => do
     let ps ← readGList ps
-    let as ← readGList as
+    let as ← readArgList as
     let r ← readG r
-    pure s!"ok {showG (inferCall ps as r)}"
+    pure s!"ok {showG (inferCallA ps as r)}"
   | "removenil", [e, t] => do
     -- `TypeOps::Remove.apply(db, t, nil)`
     let e ← readEnv e
